@@ -518,6 +518,52 @@ static void blocks()
     R.part("sum/sum1/sum2/mean/dot and strided forms, copy/swap/fill/zero, push_fore/back(_), roll_fore/back(_): every length 0..6, strides 1..3 (pairs of strides for dot_ and copy_), cache/shift lengths 0..7, small-integer contents (exact), guard cells on both sides; means of all vectors of length 1..3 over {+-MAX, +-MAX/2, 1}", n, nt);
 }
 
+// ---------------------------------------------------------------- the same array reduced again after an in-place edit
+// straight-line code through an opaque pointer at -O2: every call reads the elements as they are at that moment (a declaration that
+// promises the compiler independence from memory would let it reuse the earlier result)
+static __attribute__((noinline)) void reduce_twice(a_real *p, a_size n, a_real *q, a_real *out)
+{
+    out[0] = a_real_sum(n, p); out[1] = a_real_sum1(n, p); out[2] = a_real_sum2(n, p); out[3] = a_real_dot(n, p, q); out[4] = a_real_mean(n, p); out[5] = a_real_norm(n, p);
+    out[6] = a_real_sum_(n, p, 1); out[7] = a_real_sum1_(n, p, 1); out[8] = a_real_sum2_(n, p, 1); out[9] = a_real_dot_(n, p, 1, q, 1); out[10] = a_real_mean_(n, p, 1); out[11] = a_real_norm_(n, p, 1);
+    p[0] = 4;
+    p[n - 1] = -8;
+    out[12] = a_real_sum(n, p); out[13] = a_real_sum1(n, p); out[14] = a_real_sum2(n, p); out[15] = a_real_dot(n, p, q); out[16] = a_real_mean(n, p); out[17] = a_real_norm(n, p);
+    out[18] = a_real_sum_(n, p, 1); out[19] = a_real_sum1_(n, p, 1); out[20] = a_real_sum2_(n, p, 1); out[21] = a_real_dot_(n, p, 1, q, 1); out[22] = a_real_mean_(n, p, 1); out[23] = a_real_norm_(n, p, 1);
+}
+static void reread()
+{
+    if (R.shard.idx != 0) { return; }
+    uint64_t n = 0;
+    for (a_size len = 2; len <= 9; ++len)
+    {
+        a_real buf[16], q[16], out[24];
+        for (a_size i = 0; i < len; ++i) { buf[i] = (a_real)(1 + (double)i); q[i] = (a_real)(2 - (double)(i % 3)); }
+        a_real *volatile vp = buf;
+        reduce_twice(vp, len, q, out);
+        for (int st = 0; st < 2; ++st)
+        {
+            double v[16];
+            for (a_size i = 0; i < len; ++i) { v[i] = 1 + (double)i; }
+            if (st) { v[0] = 4; v[len - 1] = -8; }
+            double s = 0, s1 = 0, s2 = 0, d = 0;
+            for (a_size i = 0; i < len; ++i) { s += v[i]; s1 += std::fabs(v[i]); s2 += v[i] * v[i]; d += v[i] * (double)q[i]; }
+            double want[6] = {s, s1, s2, d, s / (double)len, std::sqrt(s2)};
+            static const char *FN[6] = {"sum", "sum1", "sum2", "dot", "mean", "norm"};
+            for (int f = 0; f < 12; ++f)
+            {
+                ++n;
+                double got = (double)out[st * 12 + f], w = want[f % 6];
+                bool exact = f % 6 < 4; // small integers: exact
+                if (exact ? got != w : !(std::fabs(got - w) <= 8 * EPS * (std::fabs(w) + 1)))
+                {
+                    R.viol(std::string("real|") + FN[f % 6] + (f >= 6 ? "_" : "") + "|reread", std::string("a_real_") + FN[f % 6] + (f >= 6 ? "_" : "") + " called again with the same pointer after the array was edited in place returned " + num(got) + ", the elements give " + num(w), "{\"len\":" + std::to_string(len) + ",\"edit\":" + std::to_string(st) + "}");
+                }
+            }
+        }
+    }
+    R.part("reductions called again with the same pointers after an in-place edit of the array (straight-line code at -O2)", n, n);
+}
+
 int main(int argc, char **argv)
 {
     vx::Args args(argc, argv);
@@ -527,6 +573,7 @@ int main(int argc, char **argv)
         univariate(thorough);
         multivariate();
         blocks();
+        reread();
         static const char *wn[16] = {"asinh_fallback", "asinh_bound", "acosh_fallback", "acosh_bound", "atanh_fallback", "atanh_bound", "expm1_fallback", "expm1_bound", "log1p_fallback", "log1p_bound", "atan2_fallback", "atan2_bound", "norm2", "norm3", "norm", ""};
         std::string w = "{";
         for (int i = 0; i < 15; ++i) { w += (i ? "," : "") + std::string("\"") + wn[i] + "\":" + num(worst[i]); }
